@@ -126,6 +126,11 @@ func (fi *FuncInfo) atomsWithSuffix(suffix string) []string {
 					}
 					if strings.HasSuffix(base, suffix) {
 						set[a] = true
+					} else if !strings.HasPrefix(base, "len(") && !strings.HasPrefix(base, "cap(") {
+						// a private copy of the configuration field of that name
+						if n := fi.fieldNameOfAtom(a); n != "" && strings.EqualFold("."+n, suffix) {
+							set[a] = true
+						}
 					}
 				}
 			}
@@ -366,7 +371,9 @@ func fieldNameOfRead(v ssa.Value) string {
 	return ""
 }
 
-func isFieldRead(v ssa.Value, name string) bool { return fieldNameOfRead(stripConv(v)) == name && name != "" }
+func isFieldRead(v ssa.Value, name string) bool {
+	return fieldNameOfRead(stripConv(v)) == name && name != ""
+}
 
 func sameFieldRead(a, b ssa.Value) bool {
 	a, b = stripConv(a), stripConv(b)
@@ -469,7 +476,7 @@ func (c *Ctx) minLenCandidates0(fi *FuncInfo) []ssa.Value {
 					if le.isConst() {
 						continue
 					}
-					if _, ok := atomEndsWith(le, ".inputLen"); ok {
+					if fi.atomIsField(le, "InputLen") {
 						continue
 					}
 					if _, ok := atomEndsWith(le, ".InputLen"); ok {
@@ -966,13 +973,13 @@ func (c *Ctx) emitsIn(fn *ssa.Function) []*Emit {
 
 // ParseShape captures the role values of a Parse method.
 type ParseShape struct {
-	P      *Parser
-	Fi     *FuncInfo
-	Blk    *ssa.Parameter
-	N0     ssa.Value // clamped block length
-	NilBlk *ssa.BasicBlock
-	NonNil *ssa.BasicBlock
-	WAtom  string // atom of the entry load of W
+	P       *Parser
+	Fi      *FuncInfo
+	Blk     *ssa.Parameter
+	N0      ssa.Value // clamped block length
+	NilBlk  *ssa.BasicBlock
+	NonNil  *ssa.BasicBlock
+	WAtom   string // atom of the entry load of W
 	LenAtom string
 }
 
@@ -1414,7 +1421,6 @@ func ruleBlockLen(c *Ctx) {
 	c.check(okInit && okStep, key, fn.Pos(), "n = len(Literals) + Σ MatchLen over all sequences", "Block.Len is not len(Literals) plus the sum of MatchLen")
 }
 
-
 // blockParamName: the name of the *Block parameter of a Parse-like function.
 func blockParamName(fn *ssa.Function) string {
 	for _, p := range fn.Params {
@@ -1538,4 +1544,25 @@ func blockParam(fn *ssa.Function) *ssa.Parameter {
 		}
 	}
 	return nil
+}
+
+// atomIsField: l is a single atom (coefficient 1, no constant) that reads the
+// named configuration field or a private copy of it.
+func (fi *FuncInfo) atomIsField(l Lin, name string) bool {
+	if len(l.t) != 1 || l.c != 0 {
+		return false
+	}
+	for a, co := range l.t {
+		if co != 1 {
+			return false
+		}
+		base := strings.SplitN(a, "@", 2)[0]
+		if strings.HasSuffix(base, "."+name) || strings.EqualFold(lastField(base), name) && strings.HasSuffix(strings.ToLower(base), "."+strings.ToLower(name)) {
+			return true
+		}
+		if n := fi.fieldNameOfAtom(a); n != "" && strings.EqualFold(n, name) {
+			return true
+		}
+	}
+	return false
 }
